@@ -360,12 +360,18 @@ func (s *BooleanSearcher) Advance(ctx *search.SearchContext, ID index.IndexInter
 		}
 
 		if s.shouldSearcher != nil {
-			if s.currShould != nil {
-				ctx.DocumentMatchPool.Put(s.currShould)
-			}
-			s.currShould, err = s.shouldSearcher.Advance(ctx, ID)
-			if err != nil {
-				return nil, err
+			// With a must searcher present the should cursor isn't tracked by
+			// currentID either: it can already be at or ahead of the requested
+			// ID, and moving it then would drop a should match that has been
+			// read but not used yet.
+			if s.currShould == nil || s.currShould.IndexInternalID.Compare(ID) < 0 {
+				if s.currShould != nil {
+					ctx.DocumentMatchPool.Put(s.currShould)
+				}
+				s.currShould, err = s.shouldSearcher.Advance(ctx, ID)
+				if err != nil {
+					return nil, err
+				}
 			}
 		}
 
